@@ -1,3 +1,4 @@
+//! h8mon — runtime monitors for the Koge29 H8/3069F emulator (see /verif/DESIGN.md).
 #[path = "/repo/src"]
 mod repo {
     pub mod bus;
@@ -12,10 +13,77 @@ mod repo {
 }
 pub use repo::{bus, cpu, elf, ioport, memory, modules, registers, setting, socket};
 
+mod checks;
+mod gen;
+mod mon;
+mod refmodel;
+mod util;
+
+use std::time::Instant;
+
+fn arg_val(args: &[String], key: &str) -> Option<String> {
+    args.iter().position(|a| a == key).and_then(|i| args.get(i + 1).cloned())
+}
+
 fn main() {
-    let mut c = cpu::Cpu::new();
-    c.verif_set_pc(0xffbf20);
-    c.bus.memory[0] = 0xf0; c.bus.memory[1] = 0x12;
-    let r = c.verif_step();
-    println!("{:?} er0={:x} pc={:x}", r.is_ok(), c.er[0], c.verif_pc());
+    let args: Vec<String> = std::env::args().collect();
+    if args.len() < 2 {
+        eprintln!("usage: h8mon check <id> [--tier quick|thorough] [--seed N] [--shard i --nshards n] [--out file] | replay <file> | selftest");
+        std::process::exit(2);
+    }
+    util::install_panic_hook();
+    *setting::ENABLE_PRINT_OPCODE.write().unwrap() = false;
+    match args[1].as_str() {
+        "check" => {
+            let id = args.get(2).cloned().unwrap_or_default();
+            let cfg = util::Cfg {
+                tier_thorough: arg_val(&args, "--tier").map(|t| t == "thorough").unwrap_or(false),
+                seed: arg_val(&args, "--seed").and_then(|s| s.parse().ok()).unwrap_or(1),
+                shard: arg_val(&args, "--shard").and_then(|s| s.parse().ok()).unwrap_or(0),
+                nshards: arg_val(&args, "--nshards").and_then(|s| s.parse().ok()).unwrap_or(1),
+                profile: arg_val(&args, "--profile").unwrap_or_else(|| "release".into()),
+                scale: arg_val(&args, "--scale").and_then(|s| s.parse().ok()).unwrap_or(1.0),
+            };
+            let t0 = Instant::now();
+            let Some(mut rep) = checks::run(&id, &cfg) else {
+                eprintln!("unknown check {}", id);
+                std::process::exit(2);
+            };
+            rep.counters.insert("wall_ms".into(), t0.elapsed().as_millis() as u64);
+            let js = rep.to_json();
+            match arg_val(&args, "--out") {
+                Some(p) => std::fs::write(&p, js).expect("write report"),
+                None => println!("{}", js),
+            }
+        }
+        "replay" => {
+            let path = args.get(2).cloned().unwrap_or_default();
+            let text = std::fs::read_to_string(&path).unwrap_or_default();
+            let mut any = false;
+            for line in text.lines() {
+                if !line.starts_with("check=") {
+                    continue;
+                }
+                let (bad, out) = checks::replay(line);
+                print!("{}", out);
+                any |= bad;
+            }
+            println!("{}", if any { "REPRODUCED" } else { "not reproduced" });
+            std::process::exit(if any { 1 } else { 0 });
+        }
+        "selftest" => {
+            let mut rng = util::Rng::new(7);
+            match gen::selftest_forms(&mut rng) {
+                Ok(n) => println!("form table: {} fills decode as Impl with the right length", n),
+                Err(e) => {
+                    println!("FORM TABLE ERROR: {}", e);
+                    std::process::exit(1);
+                }
+            }
+        }
+        _ => {
+            eprintln!("unknown command");
+            std::process::exit(2);
+        }
+    }
 }
